@@ -20,6 +20,12 @@
    (revert: the rest comes back) and the caller sees 0.  A creation that runs no code and reports failure (address
    collision) is accepted only towards an address that holds something, and must change nothing.
 
+   FRAME-LOCAL DETERMINISM.  The frames of a tree run code of different SHAPES (CallFramesOps: which marked offset holds
+   0x5b as PUSH data, short / long).  A "jump" event carries the class of the destination and the shape of the code the
+   frame REALLY runs (read off contract.Code by the tracer).  The jump must go on iff the destination is a JUMPDEST of
+   that code, and must be rejected (the frame ends in error, raised by the JUMP itself) iff it is not - whatever other
+   code ran before under the same root (other init codes, callers, callees: shared analysis state must not show).
+
    Named deviations (accepted only when listed in known_findings.txt, see CallFrames.tla):
      Dev_RevertAcrossSuicideLosesStorage   the real state matches the world re-executed with devS
      Dev_NestedFailVersionGapPanics        the real run panicked exactly where devG predicts it *)
@@ -100,6 +106,22 @@ StepOp(m, e) ==
   ELSE [SetTop(m, [f EXCEPT !.ceil = e.g - e.c])
           EXCEPT !.w = IF e.t = "sstore" THEN SStoreW(m.w, f.ctx, e.s, e.v) ELSE EventW(m.w, f.ctx, "log")]
 
+\* a jump towards one of the classified destinations, executed by code of shape e.v: what has to follow is decided
+\* by the next event (Step)
+StepJump(m, e) ==
+  LET f == m.fs[Len(m.fs)] IN
+  IF Runs(m, e) # "" THEN Bad(m, Runs(m, e))
+  ELSE IF e.c > e.g THEN Bad(m, "cost above the gas held")
+  ELSE IF e.s \notin JumpDestsAll \/ e.v \notin Shapes THEN Bad(m, "jump outside the universe")
+  ELSE [SetTop(m, [f EXCEPT !.ceil = e.g]) EXCEPT !.pj = <<e.v, e.s, e.pc>>]      \* (a rejected JUMP ends the frame with the same gas reading)
+\* the event that follows a jump: the JUMP itself was rejected <=> the destination is no JUMPDEST of the frame's own code
+Rejected(e, pc) == e.t = "end" /\ e.k = "err" /\ e.x /\ e.op = "JUMP" /\ e.pc = pc      \* (this very JUMP)
+AfterJump(m, e) ==
+  IF m.pj = <<>> THEN ""
+  ELSE IF JumpValid(m.pj[1], m.pj[2]) /\ Rejected(e, m.pj[3]) THEN "a jump to a JUMPDEST of the frame's own code was rejected"
+  ELSE IF ~JumpValid(m.pj[1], m.pj[2]) /\ ~Rejected(e, m.pj[3]) THEN "execution went on after a jump to what is no JUMPDEST of the frame's own code"
+  ELSE ""
+
 StepEnd(m, e) ==
   LET f == m.fs[Len(m.fs)] IN
   IF Runs(m, e) # "" THEN Bad(m, Runs(m, e))
@@ -144,12 +166,15 @@ StepRet(m, e) ==
      ELSE [m EXCEPT !.w = w2, !.gap = m.gap \/ gap,
                     !.fs = IF n = 1 THEN <<>> ELSE [rest EXCEPT ![n - 1].ceil = e.g]]
 
-Step(m, e) ==
-  IF ~m.ok THEN m
+Step(m0, e) ==
+  LET m == [m0 EXCEPT !.pj = <<>>] IN
+  IF ~m0.ok THEN m0
   ELSE IF m.gap THEN Bad(m, "execution continued after a revert the gap model says panics")   \* only used under devG reasoning
+  ELSE IF AfterJump(m0, e) # "" THEN Bad(m, AfterJump(m0, e))
   ELSE CASE e.t = "call" -> StepCall(m, e)
          [] e.t = "begin" -> StepBegin(m, e)
          [] e.t \in {"sstore", "log"} -> StepOp(m, e)
+         [] e.t = "jump" -> StepJump(m, e)
          [] e.t = "end" -> StepEnd(m, e)
          [] e.t = "ret" -> StepRet(m, e)
          [] OTHER -> Bad(m, "unknown event")
@@ -158,7 +183,7 @@ StepFixed(m, e) == Step([m EXCEPT !.gap = FALSE], e)
 \* (SequencesExt!FoldLeft is evaluated iteratively by its Java override: no deep recursion, no chain of lazy values)
 Fold(m, obs, i, strict) ==
   FoldLeft(LAMBDA acc, e : IF ~acc.ok THEN acc ELSE IF strict THEN Step(acc, e) ELSE StepFixed(acc, e), m, obs)
-M0(devS) == [w |-> World0(devS, FALSE, bal0, stor0), fs |-> <<>>, ok |-> TRUE, gap |-> FALSE, why |-> ""]
+M0(devS) == [w |-> World0(devS, FALSE, bal0, stor0), fs |-> <<>>, ok |-> TRUE, gap |-> FALSE, why |-> "", pj |-> <<>>]
 
 FinMatches(w, fin) ==
   /\ \A a \in Addrs : fin[a].bal = w.bal[a]
@@ -172,7 +197,7 @@ FinMatches(w, fin) ==
 \* a run that completed: every event legal, stack empty, real post-state = re-executed world
 Completed(r, devS) ==
   LET m == Fold(M0(devS), r.obs, 1, FALSE) IN
-  /\ m.ok /\ m.fs = <<>> /\ Len(r.obs) >= 2
+  /\ m.ok /\ m.fs = <<>> /\ m.pj = <<>> /\ Len(r.obs) >= 2
   /\ FinMatches(m.w, r.fin)
   /\ (r.st = "ok") = (r.obs[Len(r.obs)].v = 1)
 \* a run that panicked: legal up to the panic, and the panic is the one devG predicts - the innermost frame has ended
@@ -199,13 +224,14 @@ ActOf(e) ==
   CASE e.t = "call" -> [t |-> "enter", k |-> e.k, to |-> e.to, v |-> e.v, s |-> ""]
     [] e.t = "sstore" -> [t |-> "sstore", k |-> "", to |-> "", v |-> e.v, s |-> e.s]
     [] e.t = "log" -> [t |-> "log", k |-> "", to |-> "", v |-> 0, s |-> ""]
+    [] e.t = "jump" -> [t |-> "jump", k |-> "", to |-> "", v |-> 0, s |-> e.s]
     [] e.t = "end" -> [t |-> "exit", k |-> (CASE e.k = "stop" -> (IF ~e.cf THEN "ok"                       \* a creation: how the deposit went
                                                                   ELSE IF e.rl < 0 \/ e.rl > MaxCodeSize THEN "toobig"
                                                                   ELSE IF CreateDataGas * e.rl > e.g - e.c THEN "nodeposit" ELSE "ok")
                                               [] e.k = "revert" -> "revert" [] e.k = "err" -> "fail" [] OTHER -> "suicide"),
                        to |-> e.to, v |-> 0, s |-> ""]
 \* (the read-only calls of precompiles are the gas burner of the harness' init code, not actions of the generator)
-IsAct(e) == e.t \in {"call", "sstore", "log", "end"} /\ ~(e.t = "call" /\ e.to \in Precompiles)
+IsAct(e) == e.t \in {"call", "sstore", "log", "jump", "end"} /\ ~(e.t = "call" /\ e.to \in Precompiles)
 ObsActs(obs) == LET sel == SelectSeq(obs, IsAct) IN [i \in 1..Len(sel) |-> ActOf(sel[i])]
 Prescribed(r, prog) ==
   LET a == ObsActs(r.obs) IN
@@ -216,10 +242,10 @@ TReset == /\ Ev("reset")
           /\ bal0' = [a \in Addrs |-> E.bal[a]]
           /\ stor0' = [c \in Contracts |-> [s \in Slots |-> E.base[c][s]]]
 \* an action of the behaviour that only extends the program (the tree is run when its outermost frame has ended)
-TBuild == /\ Ev("Enter") \/ Ev("EnterTop") \/ Ev("SStore") \/ Ev("Log") \/ Ev("Exit") \/ Ev("Suicide") \/ Ev("Collide")
+TBuild == /\ Ev("Enter") \/ Ev("EnterTop") \/ Ev("SStore") \/ Ev("Log") \/ Ev("Exit") \/ Ev("Suicide") \/ Ev("Collide") \/ Ev("Jump") \/ Ev("BadJump")
           /\ E.run = FALSE
           /\ UNCHANGED <<bal0, stor0>>
-TRun == /\ Ev("Exit") \/ Ev("Suicide") \/ Ev("Tree")
+TRun == /\ Ev("Exit") \/ Ev("Suicide") \/ Ev("BadJump") \/ Ev("Tree")
         /\ E.run = TRUE
         /\ Len(E.runs) >= 2 /\ Len(E.runs) % 2 = 0
         /\ (\A i \in 1..Len(E.runs) : RunSandboxed(E.runs[i])) = TRUE     \* (= TRUE: evaluated as a plain expression)
